@@ -46,8 +46,8 @@ impl Check for C18 {
     }
     fn default_runs(&self, tier: Tier) -> u64 {
         match tier {
-            Tier::Quick => 12 * crate::treechecks::seq_total(4, 5) + 8_000,
-            Tier::Thorough => 12 * crate::treechecks::seq_total(5, 6) + 250_000,
+            Tier::Quick => 12 * crate::treechecks::seq_total(4, 5) + 50_000,
+            Tier::Thorough => 12 * crate::treechecks::seq_total(5, 6) + 1_000_000,
         }
     }
     fn assumptions(&self) -> Vec<String> {
